@@ -4,6 +4,7 @@ import (
 	"bufio"
 	"bytes"
 	"context"
+	"encoding/json"
 	"errors"
 	"fmt"
 	"io"
@@ -101,7 +102,26 @@ type wrapErr struct{ inner error }
 func (w wrapErr) Error() string { return "wrapped: " + w.inner.Error() }
 func (w wrapErr) Unwrap() error { return w.inner }
 
+// ErrResp is an un-hooked JSON error response of the Go server, replayed into the TS client by the check.
+type ErrResp struct {
+	K         string            `json:"k"`
+	ID        string            `json:"id"`
+	Unit      string            `json:"unit"`
+	Svc       string            `json:"svc"`
+	RPC       string            `json:"rpc"`
+	Cell      string            `json:"cell"`
+	CellBase  string            `json:"cell_base"`
+	Status    int               `json:"status"`
+	Headers   map[string]string `json:"headers"`
+	Body      []byte            `json:"body"`
+	HasFields bool              `json:"has_fields"`
+	Message   string            `json:"message"`
+	ReqObj    json.RawMessage   `json:"req_obj"`
+	ValidReq  map[string]any    `json:"valid_req"` // a valid request for the RPC as a bridge request object
+}
+
 func c10Unit(j *Job, u *JobUnit) error {
+	errRespN := 0
 	t := newTally()
 	defer t.flush()
 	var cur hookCfg
@@ -455,6 +475,22 @@ func c10Unit(j *Job, u *JobUnit) error {
 						// ---- client continuation (no hook only: the default contract) ----
 						if !hk.installed && svc != nil && svc.NewClient != nil && ctKey != "octet" {
 							c10Client(t, cellBase, cell, svc, m, valid, ct, ex, src)
+						}
+						if !hk.installed && ct == "application/json" && j.Params["stage"] == "tsclient" {
+							// the same error response is handed to the generated TS client by the check (node bridge)
+							var reqObj json.RawMessage
+							if v, err := model.Encode(valid.ProtoReflect(), model.EncOpts{}); err == nil {
+								reqObj = model.Marshal(v)
+							}
+							hs := map[string]string{}
+							for k, vs := range ex.RespHeader {
+								if len(vs) > 0 {
+									hs[k] = vs[0]
+								}
+							}
+							errRespN++
+							Emit(&ErrResp{K: "errresp", ID: fmt.Sprintf("%s|%s|%s|%05d", u.Name, js.Name, m.Name, errRespN), Unit: u.Name, Svc: js.Name, RPC: m.Name, Cell: cell, CellBase: cellBase,
+								Status: ex.Status, Headers: hs, Body: ex.RespBody, HasFields: src.fields != nil, Message: src.message, ReqObj: reqObj, ValidReq: ValidRequestFor(m)})
 						}
 					}
 				}
